@@ -355,6 +355,34 @@ def r17_12(ctx):
         ctx.ob("R17.12", "written-verbatim/" + fn, bad is None and full >= 1, bad or "delimiters and the caller's strings, in order, nothing else", "xml5ever serialize " + fn)
 
 
+def r17_14(ctx):
+    """the serializer writes a processing instruction as `<?target data?>`.  Reading it back, the state after the target consumes
+    white space only: the first other character - which may be the `?` of `?>` when the data is empty - is handed to the data
+    state unconsumed, so that the data state's own table decides about it"""
+    T = ctx.tables("xml")
+    rows = T["step"].get("PiTargetAfter")
+    if not rows:
+        raise AnchorMissing("state PiTargetAfter")
+    bad = None
+    n = 0
+    for pc in rows:
+        cls = [a[1] for a in pc.get("acq") or [] if a[0] == "get_char" and isinstance(a[1], (tuple, list))]
+        if not cls:
+            continue
+        lo, hi = cls[0]
+        acts = [(a, tuple(str(x) for x in args)) for a, args in pc["actions"]]
+        ws = lo == hi and lo in (9, 10, 32)
+        if ws:
+            if acts or pc.get("next") not in ("PiTargetAfter", None):
+                bad = "white space after the target does %s" % [a for a, _ in acts]
+            continue
+        n += 1
+        if sorted(acts) != sorted([("set self.reconsume", ("true",)), ("set self.state", ("PiData",))]):
+            bad = "after the target, %r is %s instead of being handed to the data state unconsumed: with empty data the `?` of `?>` becomes data and the instruction swallows what follows" % (
+                chr(lo), [a for a, _ in acts])
+    ctx.ob("R17.14", "pi-data-begins-unconsumed", bad is None and n >= 10, bad or "%d character classes: reconsume in the data state" % n, "xml tokenizer PiTargetAfter")
+
+
 def r17_10(ctx):
     """the serializer writes every attribute as ` name="value"`, so on re-parsing every attribute name begins in the state that
     follows a quoted value and white space (TagAttrNameBefore).  A character with which some other state starts an attribute name
@@ -390,6 +418,11 @@ def r17_10(ctx):
 
 
 def run(ctx):
+    ctx.rule("R17.14", "after a PI target only white space is consumed; the data state sees the first other character itself")
+    ctx.guard("R17.14", "pi-target-after", lambda: r17_14(ctx))
+    ctx.rule("R17.13", "rcdom Serialize writes node.children for every element (R07.13): an XML element that happens to be called template keeps its children")
+    from .C07 import r07_13
+    ctx.guard("R17.13", "rcdom-serialize", lambda: ctx.under("R17.13", lambda: r07_13(ctx)))
     ctx.rule("R17.12", "comments, processing instructions and doctype names are written verbatim between their delimiters")
     ctx.guard("R17.12", "verbatim", lambda: r17_12(ctx))
     ctx.rule("R17.11", "what the serializer escapes is decoded again: a matched reference that ends in ';' is always decoded, also directly before '=' inside an attribute value (R14.6)")
